@@ -263,7 +263,7 @@ pub fn generate_queries(out: &mut Out, ctx: &Ctx, tier: &str, seed: u64) {
         let (i2, o, nt) = ctx.exec(&req);
         out.case(&i2, &o, nt, &req);
         if i % 400 == 7 {
-            // DELETE without sub-query (Known_C08_delete_nosub)
+            // DELETE without sub-query: an error, the store stays as it is
             let sub = Q { name: 0, rt: 0, cs: vec![], lim: None, opt: false, sub: None };
             let req = l(vec![a(7), l(ops.clone()), a(0), q_sx(&sub), a(1)]);
             let (i2, o, nt) = ctx.exec(&req);
